@@ -206,7 +206,7 @@ def r3_guard(ck, F, d):
     keys = []
     for var in ("Included", "Excluded"):
         c = ft["arms"][var][1][0]
-        keys.append(c["a"] if tuple_part(c["a"]) == {0} else c["b"])
+        keys.append(c["a"] if (tuple_part(c["a"]) == {0} and len(cursor_sources(c["a"])) >= 3) else c["b"])
     tested = cursor_sources(keys[0])
     ck.ob(R, f"tests-far-bound/{d}", _is_bound_of_self(ft["src"], D["far"]), f"membership is tested against self.range.{D['far']}() ({ft['src'].show()[:70]})", b, site)
     ck.ob(R, f"tests-entry-key/{d}", all(tuple_part(k) == {0} for k in keys) and len(tested) >= 3 and cursor_sources(keys[1]) == tested, f"the tested key is the key part of the candidate entry, whichever cursor move produced it ({len(tested)} producing sites)", b, site)
